@@ -180,6 +180,11 @@ func (w *c04World) c04Exec(e *Env, kase *c04Case, gen func(ctx sdk.Context, i in
 		path := c04PathName[op.Dir][p.Kind]
 		// oracle inputs: the gate (MintingEnabled) and "the contract has code"
 		gate := !fl.paramsOff && !fl.toggled && !fl.pairGone && !w.a.BankKeeper.BlockedAddr(sdk.AccAddress(r.Bytes()))
+		if op.DenomAsAddress {
+			// message validation: ConvertCoin refuses a coin whose denomination is not the denomination of the pair the
+			// token string resolves to (a coin merely NAMED like the pair's contract address)
+			gate = false
+		}
 		hasCode := !fl.suicided
 		honest := p.Honest && !fl.suicided && op.Plan.c04Empty()
 		undo := op.Undo && prev != nil && prevGateBack && prev.Sender == op.Receiver && prev.Receiver == op.Sender &&
@@ -496,16 +501,16 @@ func runC04(e *Env) {
 				Ops: []c04Op{{Dir: dir, Sender: 0, Receiver: 1, Amount: "5"}}}, nil)
 		}
 	}
-	// ---------------- opt-in stream x (VERIF_C04_LOOKALIKE=1): a bank denomination spelled like a pair's contract
-	// address.  Such coins cannot be created by any message of this chain (only by genesis or an upgrade), so the
-	// stream is not part of the default run; see the note below.
-	if os.Getenv("VERIF_C04_LOOKALIKE") == "1" {
+	// ---------------- stream x (VERIF_C04_LOOKALIKE=0 switches it off): a bank denomination spelled like a pair's contract
+	// address (such coins can only come from a genesis file or an upgrade).  Before the repair of ConvertCoin the handler
+	// converted them into the pair's tokens (finding F6); the stream stays as a regression test: the message must be refused.
+	if os.Getenv("VERIF_C04_LOOKALIKE") != "0" {
 		for i := 0; i < 3; i++ {
 			w.c04Exec(e, &c04Case{Stream: "x", Pair: "lookalike", Ops: []c04Op{{Dir: 0, Sender: i, Receiver: i, Amount: fmt.Sprint(100 * (i + 1)), DenomAsAddress: true}}}, nil)
 		}
 	}
 	e.Stats.Notes = append(e.Stats.Notes,
-		"not in the default run (VERIF_C04_LOOKALIKE=1 adds it): MsgConvertCoin whose Coin.Denom is the 40 hex digits of a registered external contract is resolved to that pair by ADDRESS (GetTokenPairID) while the escrow/burn uses the message's own denomination; a holder of such a look-alike denomination receives the pair's escrowed tokens. Coins of such a denomination cannot be minted by any transaction of the chain, so this is recorded as an observation, not as a violation",
+		"stream x: MsgConvertCoin whose Coin.Denom is the 40 hex digits of a registered external contract resolves to that pair by ADDRESS (GetTokenPairID); the repaired handler refuses it because the denomination is not the pair's (before the repair a holder of such a look-alike coin received the pair's escrowed tokens: finding F6)",
 		"keeper-level-without-branch:* counts (informational, not compared): the same message run on the handler WITHOUT the message branch; bank-changed=true on a failed conversion shows the partial effects that only baseapp's branch discards (model: Err carries the partial bank state, deliver drops it)",
 		"pair-removed = the handler's `return nil, nil` for a selfdestructed contract: no conversion, both ledgers unchanged (monitored), token pair deleted")
 }
